@@ -92,8 +92,11 @@ prop('C04',
          dict(harness='c04_sink_flush', covers=['c04.flush-ready', 'c04.flush-pending'], min_paths=50, split=4,
               params={'quick': {'polls': 3}, 'thorough': {'polls': 4}}, conform={'quick': 60, 'thorough': 500}, nvals=30),
          VARINT_RECEIVE,
+         dict(harness='c04_frame_sequence', covers=['c04q.frame', 'c04q.end', 'c04q.pending'], min_paths=50, split=4,
+              params={'quick': {'io_budget': 2}, 'thorough': {'io_budget': 4}}, conform={'quick': 30, 'thorough': 200}, nvals=12),
      ],
-     bounds={'varint receive': 'max size 0/2/5, 1..11 symbolic header bytes, payload 0..6 bytes',
+     bounds={'frame sequence': 'three frames: 1/300/70000/131073 bytes, then 0/2/66000 bytes, then 3 bytes; limit 200000 or none; io_budget scripted carrier answers (Pending / 1 byte / half / all)',
+             'varint receive': 'max size 0/2/5, 1..11 symbolic header bytes, payload 0..6 bytes',
              'identity payload size': '1,2,32,1024,1025,2048', 'varint message (sink)': '<= 3 bytes', 'polls': 'quick 2-3, thorough 3-4',
              'carrier': 'io_budget scripted answers (Pending / 1 byte / half / all), then ideal'},
      outside=['tcp::Substream pass-through and yamux', 'messages longer than the bounds'],
@@ -316,7 +319,7 @@ prop('C08',
      explanation='Bounded model checking of the real TransportService handlers (on_connection_established, on_connection_closed, open_substream '
                  'with the real ConnectionHandle / ConnectionContext underneath) against a reference of the announced connections per peer.',
      units=[
-         dict(harness='c08_service_events', covers=['c08.established', 'c08.secondary', 'c08.closed', 'c08.one-of-two-closed', 'c08.open.accepted', 'c08.open.refused'],
+         dict(harness='c08_service_events', covers=['c08.established', 'c08.secondary', 'c08.closed', 'c08.one-of-two-closed', 'c08.open.accepted', 'c08.open.refused', 'c08.downgraded'],
               min_paths=200, split=4, params={'quick': {'steps': 5}, 'thorough': {'steps': 7}}, conform={'quick': 200, 'thorough': 2000}, nvals=24),
          CLOSED_REPORT,
      ],
